@@ -57,6 +57,8 @@ var outboxKinds = map[string]bool{
 	"other-actor-create-of-owners-post":  false, // a Create performed by someone else, of a post that is attributed to the owner
 	"own-activity-relative-actor":        true,  // "actor": "/…/owner" resolved against the activity's own (owner's) host
 	"other-host-activity-relative-actor": false, // an activity hosted elsewhere whose relative actor resolves to that other host's actor
+	"own-create-of-foreign-unattributed-post": true, // the owner's own Create of a post that lives on another host and names no author: listed, but the post has no author on the owner's host
+	"own-create-of-foreign-post-with-its-own-author": true, // … and of one attributed to an actor of that other host
 }
 
 var replyKinds = map[string]bool{
@@ -125,6 +127,21 @@ func (w *world) entryValue(c Case, i int, e Entry) any {
 			owned := map[string]any{"id": w.h0(postPath), "type": "Note", "name": token(i), "content": "x", "attributedTo": owner}
 			w.docs[postPath] = js(owned)
 			act["object"] = w.h0(postPath)
+		case "own-create-of-foreign-unattributed-post", "own-create-of-foreign-post-with-its-own-author":
+			act["actor"] = owner
+			postPath := fmt.Sprintf("/foreignpost%d", i)
+			foreign := map[string]any{"id": w.h1(postPath), "type": "Note", "name": token(i), "content": "x"}
+			if e.Kind == "own-create-of-foreign-post-with-its-own-author" {
+				foreign["attributedTo"] = w.h1("/other")
+			}
+			w.docs1[postPath] = js(foreign)
+			act["object"] = w.h1(postPath)
+			if e.Transport == "embedded" || e.Transport == "embedded-noid" {
+				// the foreign post as a copy inside the owner's document: it is fetched again from where it lives
+				if i%2 == 1 {
+					act["object"] = foreign
+				}
+			}
 		case "own-activity-relative-actor":
 			act["actor"] = w.prefix + "/owner"
 		case "other-host-activity-relative-actor":
@@ -348,6 +365,25 @@ func check(c Case) vrep.Result {
 			return vrep.Result{Classes: classes, Err: fmt.Errorf("entry %d (%s via %s) does not belong to the %s but is shown as a genuine %T %q", i, e.Kind, e.Transport, c.Listing, it, name)}
 		}
 		if !isFailure {
+			// whoever a shown post is shown with as its author lives on the post's own host
+			postHost := sim.Authority(0)
+			if strings.HasPrefix(e.Kind, "own-create-of-foreign-") {
+				postHost = sim.Authority(1)
+			}
+			var post *pub.Post
+			switch x := it.(type) {
+			case *pub.Post:
+				post = x
+			case *pub.Activity:
+				post, _ = x.Target().(*pub.Post)
+			}
+			if post != nil {
+				for _, cr := range post.Creators() {
+					if a, isActor := cr.(*pub.Actor); isActor && a.Identifier() != nil && a.Identifier().Host != postHost {
+						return vrep.Result{Classes: classes, Err: fmt.Errorf("entry %d (%s via %s): the post lives on %s but is shown with the author %q of %s", i, e.Kind, e.Transport, postHost, plain(a.Name()), a.Identifier().Host)}
+					}
+				}
+			}
 			// order: the genuine item at position i is entry i's
 			if !strings.Contains(name+plain(it.String(80)), token(i)) {
 				return vrep.Result{Classes: classes, Err: fmt.Errorf("position %d shows %q, not entry %d", i, name, i)}
